@@ -161,7 +161,7 @@ MIRI_DIR = os.path.join(HARNESS, "target-miri")
 def run_impl32(ops_path, out_path):
     """the real crates at 32-bit pointer width: the harness interpreted by miri for i686"""
     env = dict(ENV)
-    env["MIRIFLAGS"] = "-Zmiri-permissive-provenance -Zmiri-disable-isolation -Zmiri-disable-stacked-borrows"
+    env["MIRIFLAGS"] = "-Zmiri-permissive-provenance -Zmiri-disable-isolation -Zmiri-disable-stacked-borrows -Zmiri-ignore-leaks"
     env.pop("RUSTUP_TOOLCHAIN", None)
     with open(ops_path) as fi, open(out_path, "w") as fo:
         p = subprocess.run(["cargo", "+nightly", "miri", "run", "--offline", "--target", MIRI_TARGET,
@@ -364,7 +364,7 @@ def main():
         RELEVANT = {"consts": {"C06", "C11", "C05"}, "structure": {"C13", "C14"}, "abi": {"C15", "C07", "C04"},
                     "fns-nanbox": {"C06", "C11"}, "fns-logs": {"C05"}, "fns-state": {"C03", "C02"},
                     "markers": {"C01", "C08", "C11"}, "writer": {"C02", "C03"},
-                    "read-entries": {"C01", "C08"}, "deint": {"C10", "C09"}, "api-status": {"C03", "C02", "C15"}}
+                    "read-entries": {"C01", "C08"}, "deint": {"C10", "C09"}, "api-status": {"C03", "C02", "C15"}, "wasm-finalize": {"C02", "C05"}}
         rel_errors = [e for e in extract.get("errors", [])
                       if prop in RELEVANT.get(e.split(":")[0], {prop})]
         for e in rel_errors:
